@@ -179,6 +179,15 @@ func (k *KVStore) NewEntry() storage.Entry {
 	return entry.New()
 }
 
+// deleteFromOlderTables removes the superseded versions of hkey from every table
+// except the last one. A key has at most one live version in a KVStore.
+func (k *KVStore) deleteFromOlderTables(hkey uint64) {
+	for i := len(k.tables) - 2; i >= 0; i-- {
+		// ErrHKeyNotFound is the only possible error here.
+		_ = k.tables[i].Delete(hkey)
+	}
+}
+
 // PutRaw sets the raw value for the given key.
 func (k *KVStore) PutRaw(hkey uint64, value []byte) error {
 	if uint64(len(value)) > k.tableSize {
@@ -210,6 +219,7 @@ func (k *KVStore) PutRaw(hkey uint64, value []byte) error {
 		break
 	}
 
+	k.deleteFromOlderTables(hkey)
 	return nil
 }
 
@@ -245,6 +255,7 @@ func (k *KVStore) Put(hkey uint64, value storage.Entry) error {
 		break
 	}
 
+	k.deleteFromOlderTables(hkey)
 	return nil
 }
 
